@@ -18,7 +18,7 @@ Provides a class used to describe a gromacs topology and all assciated data.
 import os
 from pathlib import Path
 from collections import defaultdict
-from itertools import combinations
+from itertools import combinations, product
 import numpy as np
 import networkx as nx
 from vermouth.system import System
@@ -172,15 +172,12 @@ def match_dihedral_interaction_types(atoms, interaction_dict):
         a tuple of 4 atom indices, which are the matching key
         to the interaction dict.
     """
-    patterns = [(0, 1, 2, 3),
-                ('X', 1, 2, 3),
-                (0, 'X', 2, 3),
-                (0, 1, 'X', 3),
-                ('X', 1, 2, 'X'),
-                ('X', 'X', 2, 3),
-                (0, 'X', 'X', 3),
-                ('X', 1, 'X', 3),
-                ('X', 'X', 'X', 3)]
+    # all combinations of wildcards, the ones with fewer wildcards (i.e.
+    # the more specific ones) first; together with the reversed key this
+    # covers both directions in which the atoms can be listed
+    masks = sorted(product((False, True), repeat=4), key=sum)
+    patterns = [tuple('X' if wildcard else idx for idx, wildcard in enumerate(mask))
+                for mask in masks]
 
     for pattern in patterns:
         key = _wildcard_dih(atoms, pattern)
